@@ -6,7 +6,7 @@ F10 `COO.reshape`: the body of `if any(d == -1 for d in shape):` — the `-1` in
     arithmetic since commit ac7b716 (it was float division, finding D12):
 
         known = reduce(operator.mul, (d for d in shape if d != -1), 1)
-        if known == 0 or self.size % known != 0:
+        if shape.count(-1) > 1 or known == 0 or self.size % known != 0:      # count test since commit dbf0c20
             raise ValueError(...)
         extra = self.size // known
         shape = tuple([d if d != -1 else extra for d in shape])
@@ -34,6 +34,12 @@ PROD_NOT_M1 = (
     "| None => acc end) 1 l_))\n"
     " | _ => Raise TypeError end)")
 
+# shape.count(-1)
+COUNT_M1 = (
+    "(match shape with\n"
+    " | VTuple l_ => Ok (VInt (Z.of_nat (length (filter (fun v => match as_int v with Some d => d =? -1 | None => false end) l_))))\n"
+    " | _ => Raise TypeError end)")
+
 # tuple([d if d != -1 else extra for d in shape])
 SUBST_M1 = (
     "(match shape, as_int extra with\n"
@@ -49,6 +55,7 @@ FILES = {
              selector=("if", "any((d == -1 for d in shape))"), params=["shape", "size"], result=["shape"],
              extern={
                  "reduce(operator.mul, (d for d in shape if d != -1), 1)": PROD_NOT_M1,
+                 "shape.count(-1)": COUNT_M1,
                  "self.size": "Ok size",
                  "tuple([d if d != -1 else extra for d in shape])": SUBST_M1,
              }),
@@ -59,6 +66,7 @@ FILES = {
              selector=("if", "any((d == -1 for d in shape))"), params=["shape", "size"], result=["shape"],
              extern={
                  "reduce(operator.mul, (d for d in shape if d != -1), 1)": PROD_NOT_M1,
+                 "shape.count(-1)": COUNT_M1,
                  "self.size": "Ok size",
                  "tuple([d if d != -1 else extra for d in shape])": SUBST_M1,
              }),
